@@ -226,6 +226,14 @@ func RunSpawned(match string) int {
 // the library sleeps before acting)
 func RunImmediate() int { time.Sleep(80 * time.Millisecond); return 0 }
 
+// SetTimerLimit (engine only): time.After channels with a constant duration up to d fire by themselves, longer or
+// symbolic ones never do unless the harness fires them (handshake timers stay pending, delayed closes elapse).
+func SetTimerLimit(d time.Duration) {}
+
+// RunAll: run every parked goroutine to its end, whatever it is called (with timers on their sleeps elapse at once).
+// Natively the goroutines run by themselves: wait longer than the library's notification / close delays (up to 1 s).
+func RunAll() int { time.Sleep(1300 * time.Millisecond); return 0 }
+
 // RunSpawnedExcept: run every parked goroutine whose function name does not contain `match`
 func RunSpawnedExcept(match string) int { time.Sleep(1300 * time.Millisecond); return 0 }
 func DropSpawned(match string) int      { return 0 }
